@@ -2,16 +2,23 @@ module verif/harness
 
 go 1.22.2
 
-require github.com/renbou/grpcbridge v0.0.0
+require (
+	github.com/renbou/grpcbridge v0.0.0
+	google.golang.org/grpc v1.63.2
+	google.golang.org/protobuf v1.33.0
+)
 
 require (
+	github.com/dolthub/maphash v0.1.0 // indirect
+	github.com/grpc-ecosystem/grpc-gateway/v2 v2.19.1 // indirect
+	github.com/klauspost/compress v1.17.5 // indirect
+	github.com/lxzan/gws v1.8.2 // indirect
+	golang.org/x/exp v0.0.0-20240409090435-93d18d7e34b8 // indirect
 	golang.org/x/net v0.24.0 // indirect
 	golang.org/x/sys v0.19.0 // indirect
 	golang.org/x/text v0.14.0 // indirect
 	google.golang.org/genproto/googleapis/api v0.0.0-20240412170617-26222e5d3d56 // indirect
 	google.golang.org/genproto/googleapis/rpc v0.0.0-20240412170617-26222e5d3d56 // indirect
-	google.golang.org/grpc v1.63.2 // indirect
-	google.golang.org/protobuf v1.33.0 // indirect
 )
 
 replace github.com/renbou/grpcbridge => /repo
